@@ -107,6 +107,7 @@ class FuncV(Val):
     env: object = None  # closure Env
     self_val: object = None
     owner: object = None  # ClassInfo in which the method was found (for super())
+    raw: bool = False  # the undecorated function (what a decorator receives)
 
 
 @dataclass
